@@ -3,6 +3,9 @@ package props
 import (
 	"bytes"
 	"fmt"
+	"math/big"
+
+	clptypes "github.com/Sifchain/sifnode/x/clp/types"
 
 	ethbridgetypes "github.com/Sifchain/sifnode/x/ethbridge/types"
 	sdk "github.com/cosmos/cosmos-sdk/types"
@@ -41,6 +44,44 @@ func reexec(rep *report.Report, c *chain.Chain, n int, kind string, replay inter
 	return len(ops) * n
 }
 
+// scriptRewardsDustPools: several pools, one of them so shallow that every provider's part of a block's depth
+// rewards rounds to zero while the other pools pay; rewards are distributed to wallets.
+func scriptRewardsDustPools(rng *chain.Rng) *env.Env {
+	toks := []string{"cdash", "ceth", "clink", "cusdc"}[:3+rng.Intn(2)]
+	e := env.New(env.Opts{NUsers: 4, Tokens: toks})
+	e.BeginBlock()
+	mustOK(e.UpdateRewardsParams(0, 0, 0, "", false), "rewards params")
+	dust := rng.Intn(len(toks))
+	for i, t := range toks {
+		n := new(big.Int).Mul(big.NewInt(int64(100000+rng.Intn(400000))), chain.E(18))
+		if i == dust {
+			n = chain.E(18)
+		}
+		mustOK(e.CreatePool(e.Users[0], t, n, n), "create pool")
+		for _, u := range e.Users[1:3] {
+			mustOK(e.AddLiquidity(u, t, n, n), "add liquidity")
+		}
+	}
+	st := uint64(e.Height) + 1
+	au := sdk.NewUint(uint64(1000000 * (1 + rng.Intn(4))))
+	dm := sdk.OneDec()
+	p := &clptypes.RewardPeriod{RewardPeriodId: "rp", RewardPeriodStartBlock: st, RewardPeriodEndBlock: st + 3,
+		RewardPeriodAllocation: &au, RewardPeriodDefaultMultiplier: &dm, RewardPeriodDistribute: true, RewardPeriodMod: 1}
+	mustOK(e.AddRewardPeriods([]*clptypes.RewardPeriod{p}), "reward period")
+	if rng.Intn(2) == 0 {
+		lp := &clptypes.ProviderDistributionPeriod{DistributionPeriodBlockRate: sdk.NewDecWithPrec(1, 18), DistributionPeriodStartBlock: st,
+			DistributionPeriodEndBlock: st + 3, DistributionPeriodMod: 1}
+		mustOK(e.AddLppdPeriods([]*clptypes.ProviderDistributionPeriod{lp}), "lppd")
+	}
+	for b := 0; b < 6; b++ {
+		e.NextBlock()
+		if rng.Intn(2) == 0 {
+			e.Swap(e.Users[3], "rowan", toks[rng.Intn(len(toks))], big.NewInt(int64(1+rng.Intn(1000000))), big.NewInt(0))
+		}
+	}
+	return e
+}
+
 // C09 — state-machine determinism: same blocks, same state and results.
 func C09(c Ctx) *report.Report {
 	rep := report.New("C09", c.Seed, c.Tier)
@@ -56,6 +97,14 @@ func C09(c Ctx) *report.Report {
 		calls += reexec(rep, h.Env.Chain, runs, "clp", replayOf(h, len(h.Steps)))
 		hists++
 		rep.Count("reexecuted.clp")
+	}
+	// depth rewards paid to wallets over pools of very different depth: a dust pool whose providers' parts all round to
+	// zero next to pools that pay (zero and non-zero entries in the reward map), and LPPD on the same pools
+	for i := 0; i < c.N(4, 40); i++ {
+		e := scriptRewardsDustPools(rng)
+		calls += reexec(rep, e.Chain, 2*runs, "clp-rewards", map[string]interface{}{"corpus": "3-4 pools, one of them 1e18 deep with 3 equal providers, reward period paid to wallets with an allocation so small that the dust pool's parts round to zero"})
+		hists++
+		rep.Count("reexecuted.rewards-dust-pools")
 	}
 	// bridge: conflicting claims with tied powers, whitelist edits
 	for _, h := range RunBridgeHistories(c, rep, rng, BOpts{Histories: c.N(12, 200), Steps: 24, ClaimW: 12, LockW: 2, AdminW: 3, Pause: true}, &next) {
